@@ -6,12 +6,12 @@
               ... arbitrary delay ...
               value, expire := item.value, item.expireTime                        = [resume]
      writer   update:  fresh := newItem(cmd); tab.swapAt(fresh)                   (the old item is left untouched)
-              insert:  item := newItem(cmd); admitted -> tab.store(item) | rejected -> dropItem(item, RemovedRejected)
+              insert:  item := newItem(cmd); accepted -> tab.store(item) | rejected -> dropItem(item, RemovedRejected)
               Delete / eviction / expiry: tab.removeExact(item)
               evictMain may also drop a PROMOTED RESIDENT with RemovedRejected    = [ORejectResident]
               Clear: tab.clear()
    The heap maps item addresses to contents; [next] is the allocator (the Go runtime never hands out an address that
-   is still referenced, and the paused reader references its item).  Parameter [recycle] is the seeded change C11q-m1:
+   is still referenced, and the paused reader references its item).  The flag [recycle] is the seeded change C11q-m1:
    dropItem keeps the last RemovedRejected item in a one-slot spare and the next insert overwrites that struct in place.
 
    Tied to /repo by conc's pausedReaderProbe (hooks VerifLookup / Resume): the same reader, paused for real. *)
@@ -30,7 +30,7 @@ Record st := mkSt {
 }.
 
 Inductive op :=
-| OSet (k v e : Z) (admit : bool)    (* Set / SetAsync applied; [admit] = admission's verdict on a new key *)
+| OSet (k v e : Z) (adm : bool)    (* Set / SetAsync applied; [adm] = admission's verdict on a new key *)
 | ORemove (k : Z)                    (* Delete, eviction, expiry *)
 | ORejectResident (k : Z)            (* evictMain drops a promoted resident with reason rejected *)
 | OClear.
@@ -48,7 +48,7 @@ Definition init : st := mkSt (fun _ => None) 0 [] None [].
 
 Definition step (recycle : bool) (s : st) (o : op) : st :=
   match o with
-  | OSet k v e admit =>
+  | OSet k v e adm =>
       let it := mkItem k v e in
       match lookup (tab s) k with
       | Some _ =>
@@ -60,7 +60,7 @@ Definition step (recycle : bool) (s : st) (o : op) : st :=
             | Some q => (q, hupd (heap s) q it, next s, None)
             | None => (next s, hupd (heap s) (next s) it, S (next s), spare s)
             end in
-          if admit then mkSt h n ((k, p) :: tab s) sp (it :: log s)
+          if adm then mkSt h n ((k, p) :: tab s) sp (it :: log s)
           else mkSt h n (tab s) (if recycle then Some p else sp) (it :: log s)
       end
   | ORemove k => mkSt (heap s) (next s) (tremove k (tab s)) (spare s) (log s)
@@ -83,10 +83,10 @@ Lemma step_alloc_stable s o p it :
   (p < next s)%nat -> heap s p = Some it ->
   (p < next (step false s o))%nat /\ heap (step false s o) p = Some it.
 Proof.
-  intros Hp Hh. destruct o as [k v e admit|k|k|]; cbn [step].
+  intros Hp Hh. destruct o as [k v e adm|k|k|]; cbn [step].
   - destruct (lookup (tab s) k) as [old|].
     + cbn. split; [lia|]. unfold hupd. destruct (Nat.eqb_spec p (next s)); [lia|exact Hh].
-    + cbn. destruct admit; cbn; (split; [lia|]); unfold hupd; destruct (Nat.eqb_spec p (next s)); try lia; exact Hh.
+    + cbn. destruct adm; cbn; (split; [lia|]); unfold hupd; destruct (Nat.eqb_spec p (next s)); try lia; exact Hh.
   - cbn. split; assumption.
   - destruct (lookup (tab s) k); cbn; split; assumption.
   - cbn. split; assumption.
@@ -135,19 +135,19 @@ Proof.
   assert (Hst : forall p it, (p < next s)%nat -> heap s p = Some it ->
                  (p < next (step false s o))%nat /\ heap (step false s o) p = Some it)
     by (intros; apply step_alloc_stable; assumption).
-  destruct o as [k v e admit|k|k|].
-  - assert (Hlog : forall it, In it (log s) -> In it (log (step false s (OSet k v e admit)))).
+  destruct o as [k v e adm|k|k|].
+  - assert (Hlog : forall it, In it (log s) -> In it (log (step false s (OSet k v e adm)))).
     { intros it Hi. cbn [step]. destruct (lookup (tab s) k); [cbn; right; exact Hi|].
-      cbn. destruct admit; cbn; right; exact Hi. }
-    assert (Hold : Forall (entry_ok (step false s (OSet k v e admit))) (tab s)).
+      cbn. destruct adm; cbn; right; exact Hi. }
+    assert (Hold : Forall (entry_ok (step false s (OSet k v e adm))) (tab s)).
     { eapply Forall_impl; [|exact H]. intros kp Hkp. eapply entry_ok_mono; eauto. }
-    assert (Hnew : entry_ok (step false s (OSet k v e admit)) (k, next s)).
+    assert (Hnew : entry_ok (step false s (OSet k v e adm)) (k, next s)).
     { cbn [step]. destruct (lookup (tab s) k).
       - split; [cbn; lia|]. exists (mkItem k v e). cbn. unfold hupd. rewrite Nat.eqb_refl. auto.
-      - cbn. destruct admit; (split; [cbn; lia|]); exists (mkItem k v e); cbn; unfold hupd; rewrite Nat.eqb_refl; auto. }
+      - cbn. destruct adm; (split; [cbn; lia|]); exists (mkItem k v e); cbn; unfold hupd; rewrite Nat.eqb_refl; auto. }
     cbn [step] in *. destruct (lookup (tab s) k).
     + cbn [tab] in *. constructor; [exact Hnew|]. apply Forall_tremove. exact Hold.
-    + cbn in *. destruct admit; cbn [tab] in *.
+    + cbn in *. destruct adm; cbn [tab] in *.
       * constructor; [exact Hnew|exact Hold].
       * exact Hold.
   - cbn. apply Forall_tremove. eapply Forall_impl; [|exact H]. intros kp [Hp Hx]. split; [exact Hp|exact Hx].
